@@ -188,7 +188,7 @@ def gen_cases(ctx, count, streams=("exact", "whole", "tol", "boundary"), nbs=(1,
 def run_cases(ctx, cases):
     """-> {cid: dict(impl_table, impl_out, model_table, model_out, defined)} plus raw status"""
     tg = ctx.build()
-    rc, out, err = run_driver(tg["impl_driver"], "".join(c.impl_text() for c in cases))
+    rc, out, err = run_driver(tg["impl_kick"], "".join(c.impl_text() for c in cases))
     if rc != 0:
         raise RuntimeError("impl_driver failed rc=%d: %s" % (rc, err[-2000:]))
     impl = parse_cases(out)
